@@ -73,6 +73,10 @@ directly accepts what forward accepts and raises what forward raises).  A USER-D
 GlobalSoftAttention (``user_dot_class``) is attended with on its own and wrapped: the multi-head = composition
 predicate calls the very module the MultiHeadedAttention holds, whatever its class.
 
+ONE OBJECT, CALLS OF DIFFERENT SHAPES (improvement round h, seeded change C20-h1): the life of the object (below)
+also has calls whose key has ANOTHER RANK / T / batch sizes / broadcasting pattern / mask mode, before
+(``life["before"]``) and after (post step ``shape``) the case's call; see ``other_shape`` / ``_shape_call``.
+
 MODULE LIFE CYCLE (improvement round g, seeded change C20-g1): every call belongs to the life of ONE module
 object (field ``life``, drawn from the case's own seed in every stream, enumerated in ``_lifecycle_cases``).  The
 case's call -- the one the Lean model and all predicates judge -- is made under one of {train, eval} x {grad,
@@ -832,6 +836,62 @@ def fresh_copies(q, k, v, mask):
     """new tensor objects with the current contents (value IS key stays so)"""
     kc = k.clone()
     return q.clone(), kc, kc if v is k else v.clone(), None if mask is None else mask.clone()
+
+
+# ONE OBJECT, CALLS OF DIFFERENT SHAPES (round h).  A module is built once (dim, sizes) and then serves calls whose
+# key has ANOTHER rank (a negative dim fixes the axes to the right of the sequence axis, a non-negative one the
+# axes to its left: the other side is free), another sequence length, other batch sizes, another broadcasting
+# pattern, another mask mode.  Such a call is described by a SHAPE SPEC {nb, E, T, bq, bk, bv, bm, mask, mdrop,
+# seed} stored in the case's life: `life["before"]` = [[mode, grad, spec], ...] are made BEFORE the case's call
+# (so the call that the Lean model and every predicate judge is made by an object that has seen other ranks), the
+# step ["shape", mode, grad, spec] of `life["post"]` after it.  Every one of them is judged as the call of a
+# freshly constructed module (see _judge_call) and its result must have the documented shape.
+SHAPE_CASE_DROPS = ("mag", "mixed", "layout", "window", "alias", "vconst", "nomodel", "kT", "life")
+
+
+def other_shape(r, c):
+    """a shape spec for another legal call of the module of case `c` (random source `r`)"""
+    nb0, nc0 = c["nb"], len(c["E"]) - c["nb"]
+    if c["dim"] < 0:
+        # dim = -(nc + 2): the number of axes to the right is fixed, the number to the left is free (>= 1)
+        nc, nb = nc0, r.choice([x for x in (1, 2, 3) if x != nb0] * 3 + [nb0])
+    else:
+        nb, nc = nb0, r.choice([x for x in (0, 1, 2) if x != nc0] * 3 + [nc0])
+    E = [r.randint(1, 3) for _ in range(nb + nc)]
+    while _numel(E) > 12:
+        E[r.randrange(len(E))] = 1
+    nE = len(E)
+
+    def flags(p):
+        return [1 if r.random() < p else 0 for _ in range(nE)]
+    pat = r.choice(["full", "full", "query_bcast", "key_bcast", "mixed"])
+    if pat == "full":
+        bq = bk = bv = bm = [1] * nE
+    elif pat == "query_bcast":
+        bq, bk, bv, bm = [0] * nE, [1] * nE, [1] * nE, [1] * nE
+    elif pat == "key_bcast":
+        bq, bk, bv, bm = [1] * nE, [0] * nE, flags(0.5), flags(0.7)
+    else:
+        bq, bk, bv, bm = flags(0.5), flags(0.5), flags(0.6), flags(0.6)
+    return {"nb": nb, "E": E, "T": r.choice([t for t in (1, 2, 3, 4, 5, 6, 7) if t != c["T"]] + [c["T"]]),
+            "bq": list(bq), "bk": list(bk), "bv": list(bv), "bm": list(bm),
+            "mask": r.choice(["some", "some", "some", "none", "all"]), "mdrop": r.choice([0, 0, 1]),
+            "seed": r.randrange(1 << 30)}
+
+
+def shape_case(case, spec):
+    """the case that describes the call of shape `spec` on the module of `case`: same construction (flavour, dim,
+    sizes, dtype of the parameters), ordinary contents"""
+    s = {a: b for a, b in case.items() if a not in SHAPE_CASE_DROPS}
+    s.update(spec)
+    s["mT"] = s["vT"] = True
+    return s
+
+
+def shape_text(case, spec):
+    s = shape_case(case, spec)
+    qs, ks, vs, ms = case_shapes(s)
+    return f"query {qs}, key {ks}, value {vs}, mask {ms} (dim={case['dim']})"
 
 
 def edit_tensor(x, how, seq_axis=None):
@@ -1869,6 +1929,12 @@ class C20(PropertyCheck):
                             ["input", r.choice("qkvm"), r.choice(INPUT_HOWS)] if x < 0.85 else ["other"] + combo())
                 post.append(["call"] + combo())
             life["post"] = post
+        # (round h) calls of OTHER SHAPES (rank of the key, T, batch sizes, broadcasting pattern, mask mode) on the
+        # same object, before and after the case's call (drawn last: the fields above stay what they were)
+        if r.random() < (0.2 if big else 0.35):
+            life["before"] = [combo() + [other_shape(r, c)] for _ in range(r.choice([1, 1, 2]))]
+        if r.random() < (0.2 if big else 0.35):
+            life.setdefault("post", []).extend([["shape"] + combo() + [other_shape(r, c)], ["call"] + combo()])
         c["life"] = life
         return c
 
@@ -1931,6 +1997,32 @@ class C20(PropertyCheck):
                                           ["input", rng.choice("qkvm"), rng.choice(INPUT_HOWS)],
                                           ["call"] + list(rng.choice(combos))]}
                     yield c
+        # (d) (round h) ONE OBJECT, CALLS OF DIFFERENT SHAPES: every flavour x negative / non-negative dim x keys of
+        #     3 and 4 axes (and wrapped in MultiHeadedAttention, whose dim is never negative): one or two calls of
+        #     other shapes (mostly another RANK of the key: a negative dim leaves the number of leading axes free,
+        #     a non-negative one the number of trailing axes) BEFORE the case's call, then the case's call, another
+        #     shape, and the case's tensors again
+        for kind in ("single", "multi"):
+            for flavour in FLAVOURS:
+                for neg in ((False, True) if kind == "single" else (False,)):
+                    for n in (3, 4):
+                        for rep in range(2):
+                            if kind == "single":
+                                nb = rng.randint(1, n - 2) if neg else rng.randint(0, n - 2)
+                                c = self._single(rng, flavour, n, nb, neg, tier, mask="some")
+                                c.pop("kT", None)
+                                c["mT"] = True
+                                c["T"] = max(2, c["T"])
+                            else:
+                                c = base(kind, flavour)
+                            mode, grad = ("eval", "no_grad") if rep == 0 else rng.choice(combos)
+                            c["life"] = {"mode": mode, "grad": grad,
+                                         "before": [[mode, grad, other_shape(rng, c)]
+                                                    for _ in range(rng.choice([1, 2]))],
+                                         "post": [["shape", mode, grad, other_shape(rng, c)], ["call", mode, grad],
+                                                  ["shape"] + list(rng.choice(combos)) + [other_shape(rng, c)],
+                                                  ["call"] + list(rng.choice(combos))]}
+                            yield c
 
     def cases(self, rng, tier):
         for c in self._cases(rng, tier):
@@ -2325,6 +2417,40 @@ class C20(PropertyCheck):
                        f"got {o.detach().reshape(-1).tolist()[:4]}, fresh {ref.reshape(-1).tolist()[:4]}")
         return o, None
 
+    def _shape_call(self, case, params, mod, mode, grad, spec, what):
+        """A call of ANOTHER SHAPE (other rank of the key, other T, other batch sizes / broadcasting pattern / mask
+        mode: shape spec, see other_shape) on the case's module object -> complaint or None.  Judged (a) as the
+        call of a freshly constructed module with the current parameters (_judge_call), (b) on its own: the
+        documented result shape, and -- a single attention -- every coordinate of every result inside the
+        interval of the values KEPT along the key axis `dim` (convex combination along the documented axis)."""
+        import torch
+        s = shape_case(case, spec)
+        q, k, v, mask, _ = make_inputs(s)
+        A, P, _ = self._dtypes(s, mod, q, k, v)
+        tol = case_tol(s, A, P)
+        o, d = self._judge_call(case, params, mod, mode, grad, q, k, v, mask,
+                                f"{what}: a call of ANOTHER SHAPE on the same object, {shape_text(case, spec)}", tol)
+        if d or o is None:
+            return d
+        with torch.no_grad():
+            o = o.detach().clone()
+            i, ET, Eb = geometry(s, q, k, v, mask)
+            expected = Eb + [eff_dims(case)[1] if case["kind"] == "multi" else v.shape[-1]]
+            where = f"{what}: a call of ANOTHER SHAPE on the same object, {shape_text(case, spec)},"
+            if list(o.shape) != expected:
+                return f"{where} returned shape {list(o.shape)}, documented {expected}"
+            o64 = o.to(torch.float64)
+            if case["kind"] == "single" and bool(torch.isfinite(o64).all()):
+                vf = v.to(torch.float64).broadcast_to(ET + [v.shape[-1]])
+                mf = (mask if mask is not None else torch.ones(ET, dtype=torch.bool)).broadcast_to(ET).unsqueeze(-1)
+                lo = vf.masked_fill(~mf, float("inf")).min(i)[0]
+                hi = vf.masked_fill(~mf, -float("inf")).max(i)[0]
+                slack = tol * max(1.0, float(vf.abs().max()))
+                if bool(((o64 < lo - slack) | (o64 > hi + slack)).any()):
+                    return (f"{where} is not a convex combination of the kept values along key axis {case['dim']}: "
+                            f"a coordinate of the result lies outside the interval of the kept values")
+        return None
+
     def _pre_history(self, case, params, mod, q, k, v, mask):
         """THE OBJECT HAS A PAST when the case's call is made: it held OTHER parameters (and the argument tensors
         other contents), was called with the very tensor objects of the case's call, and was then given the case's
@@ -2336,9 +2462,16 @@ class C20(PropertyCheck):
         life = case.get("life") or LEGACY_LIFE
         mod.train(life["mode"] == "train")
         pre = life.get("pre")
-        if not pre:
-            return []
         fails = []
+        # calls of OTHER SHAPES before anything else: the first shapes the object ever sees are not the case's
+        for n, (mode, grad, spec) in enumerate(life.get("before") or []):
+            d = self._shape_call(case, params, mod, mode, grad, spec, f"life of one module object: call {n + 1} "
+                                 f"of its past")
+            if d:
+                fails.append([d, "C20.lifecycle"])
+                break
+        if not pre:
+            return fails
         A, P, _ = self._dtypes(case, mod, q, k, v)
         tol = case_tol(case, A, P)
         target = {n: p.detach().clone() for n, p in mod.named_parameters()}
@@ -2390,6 +2523,13 @@ class C20(PropertyCheck):
                     break
                 if o is not None:
                     held.append((o, o.detach().clone(), f"call {ncall} after the case's call"))
+            elif st[0] == "shape":
+                d = self._shape_call(case, params, mod, st[1], st[2], st[3], "life of one module object: after the "
+                                     f"case's call (since then: {'; '.join(done) or 'nothing changed'})")
+                if d:
+                    fails.append([d, "C20.lifecycle"])
+                    break
+                done.append(f"a call of another shape ({shape_text(case, st[3])})")
             elif st[0] == "other":
                 # a SECOND module object (same construction, other parameters) is called with the same tensor
                 # objects in between: nothing is shared between module objects
@@ -2965,9 +3105,20 @@ class C20(PropertyCheck):
                 for m_, g_ in pre["calls"]:
                     t.append(f"life:past_call=module.{m_}(),{g_}")
             post = life.get("post") or []
+            kr = len(case["E"]) + 2
+            for when, specs in (("before", [b_[2] for b_ in life.get("before") or []]),
+                                ("after", [s_[3] for s_ in post if s_[0] == "shape"])):
+                t.append(f"life:other_shapes_{when}={len(specs)}")
+                for sp_ in specs:
+                    t.append(f"life:other_shape:{'neg' if case['dim'] < 0 else 'nonneg'} dim,key rank "
+                             + ("same" if len(sp_["E"]) + 2 == kr else "differs")
+                             + (",T same" if sp_["T"] == case["T"] else ",T differs"))
+                    t.append(f"life:other_shape:key rank {kr}->{len(sp_['E']) + 2}")
+                    t.append(f"life:other_shape:mask={sp_['mask']}")
             t.append(f"life:future={sum(1 for s_ in post if s_[0] == 'call')} call(s)")
             for s_ in post:
                 t.append("life:future_step=" + (f"call module.{s_[1]}(),{s_[2]}" if s_[0] == "call" else
+                                                "a call of another shape" if s_[0] == "shape" else
                                                 "a second module object called with the same tensors" if s_[0] == "other" else
                                                 f"parameters:{s_[1]}" if s_[0] == "params" else
                                                 f"argument {s_[1]} edited:{s_[2]}"))
@@ -3041,7 +3192,7 @@ class C20(PropertyCheck):
         # the life: towards "train, no_grad, no past, no future"; the failure must survive
         life = case.get("life")
         if life:
-            for key in ("pre", "post"):
+            for key in ("pre", "post", "before"):
                 if life.get(key):
                     c = dict(case)
                     c["life"] = {a: b for a, b in life.items() if a != key}
